@@ -128,37 +128,64 @@ def _rounds(t, lo, hi):
     return out
 
 
-def _oscillation_signature(t, line):
-    """Known finding D19 only: during the drain the controller keeps assigning an address on interface X although the
-    record it started from holds an idle Valid unbound address of that family on another in-use interface Y of the
-    same class (the demand was already covered elsewhere), and the surplus is trimmed again. Anything else that
-    fails to reach a fixed point keeps the generic label."""
+def _osc_window(t, line):
     d = next((i for i, r in enumerate(t) if r["ev"] == "drain"), None)
     if d is None:
-        return False
+        return None
     rounds = _rounds(t, d, line - 1)
-    if len(rounds) < 8:
+    return rounds[-8:] if len(rounds) >= 10 else None
+
+
+def _idle_elsewhere(before, e, v4, rdma_class):
+    """Idle Valid unbound addresses of that family in the record, on in-use interfaces other than e whose RDMA flag is rdma_class."""
+    inuse = {x["e"]: x for x in before["enis"] if x["st"] == "InUse"}
+    return [i for i in before["ips"] if i["p"] == 0 and i["st"] == "Valid" and (i["a"] < 100) == v4 and i["e"] != e
+            and i["e"] in inuse and inuse[i["e"]]["rdma"] == rdma_class]
+
+
+def _oscillation_signature(t, line):
+    """Known finding D19 only: in the last 8 reconciles of the drain no interface comes or goes, the controller keeps
+    assigning an address on interface X although the record it started from holds an idle Valid unbound address of that
+    family on another in-use interface Y of the same class (the demand was already covered elsewhere), and the surplus
+    is trimmed again. Anything else that fails to reach a fixed point keeps a generic label."""
+    w = _osc_window(t, line)
+    if w is None:
         return False
-    hits, assigns, trims = [], [], []
-    for k, (before, evs, after) in enumerate(rounds):
+    hits, assigns, trims = set(), set(), set()
+    for k, (before, evs, after) in enumerate(w):
         inuse = {x["e"]: x for x in before["enis"] if x["st"] == "InUse"}
         for r in evs:
             if r["ev"] in ("create_begin", "delete_begin", "detach", "attach"):
-                return False                      # interfaces come and go: not this defect's shape
+                return False
             if r["ev"] == "unassign_begin":
-                trims.append(k)
+                trims.add(k)
             if r["ev"] == "assign_begin":
-                assigns.append(k)
+                assigns.add(k)
                 x = inuse.get(r["e"])
-                if x is None:
-                    continue
-                v4 = r["fam"] == 4
-                if any(i["p"] == 0 and i["st"] == "Valid" and (i["a"] < 100) == v4 and i["e"] != r["e"]
-                       and i["e"] in inuse and inuse[i["e"]]["rdma"] == x["rdma"] for i in before["ips"]):
-                    hits.append(k)
-    n = len(rounds)
-    recent = lambda ks: any(k >= n - 5 for k in ks)
-    return len(set(hits)) >= 2 and recent(hits) and recent(trims) and len(set(hits)) * 2 >= len(set(assigns)) - 1
+                if x is not None and _idle_elsewhere(before, r["e"], r["fam"] == 4, x["rdma"]):
+                    hits.add(k)
+    return len(hits) >= 2 and len(trims) >= 2 and len(hits) * 2 >= len(assigns) - 1
+
+
+def _rdma_oscillation_signature(t, line):
+    """A different shape of non-convergence on a node with an RDMA interface: the controller keeps growing an ordinary
+    interface (assign or create) although no ordinary interface lacks nothing but the idle addresses of the RDMA interface,
+    which only the trimming side counts; the surplus is trimmed (or the new interface deleted) again."""
+    w = _osc_window(t, line)
+    if w is None or not t[0].get("conf", {}).get("rdma"):
+        return False
+    v4 = bool(t[0]["conf"].get("v4"))
+    hits, shrinks = set(), set()
+    for k, (before, evs, after) in enumerate(w):
+        inuse = {x["e"]: x for x in before["enis"] if x["st"] == "InUse"}
+        for r in evs:
+            if r["ev"] in ("unassign_begin", "delete_begin"):
+                shrinks.add(k)
+            grow = (r["ev"] == "assign_begin" and r["e"] in inuse and not inuse[r["e"]]["rdma"] and (r["fam"] == 4) == v4) or \
+                   (r["ev"] == "create_begin" and not r["rdma"])
+            if grow and not _idle_elsewhere(before, r.get("e", 0), v4, False) and _idle_elsewhere(before, 0, v4, True):
+                hits.add(k)
+    return len(hits) >= 2 and len(shrinks) >= 2
 
 
 def _lost_rollback_signature(t, line, e):
@@ -191,9 +218,12 @@ def classify(prop, t, line):
     label = "%s_at_%s" % (prop.lower(), ev)
     if prop == "C08" and ev == "fixpoint":
         if not bad.get("stable"):
-            return "c08_oscillation_idle_on_other_eni" if _oscillation_signature(t, line) else "c08_no_fixed_point"
-        rec = {x["e"] for x in bad.get("enis", [])}
-        leaked = [c["e"] for c in bad.get("cloud", []) if not c["att"] or c["e"] not in rec]
+            if _oscillation_signature(t, line):
+                return "c08_oscillation_idle_on_other_eni"
+            if _rdma_oscillation_signature(t, line):
+                return "c08_oscillation_rdma_idle_counted_by_trim_only"
+            return "c08_no_fixed_point"
+        leaked = [c["e"] for c in bad.get("cloud", []) if not c["att"]]
         if leaked:
             return "c08_leak_after_failed_rollback_and_lost_record" if all(_lost_rollback_signature(t, line, e) for e in leaked) else "c08_leaked_interface"
         return "c08_fixed_point_state"
